@@ -21,10 +21,27 @@ func init() {
 	register("C03", streamBuffer)
 	register("C09", streamBuffer)
 	register("C13", streamBuffer)
+	register("C01", streamPrinterWF, streamCompose)
+	register("C03", streamPrinterWF)
+	register("C11", streamTotality, streamPrinterWF)
+	register("C02", streamNI)
+	register("C04", streamFidelity)
+	register("C05", streamEnvelopes)
+	register("C06", streamWrappers)
+	register("C08", streamCompose)
+	register("C12", streamHistories)
+	register("C14", streamForward)
+	register("C15", streamErrorf)
+	register("C16", streamRoutes)
+	register("C17", streamHook)
 }
 
 // usage: harness <property> <tier> <seed> <driver-path> <report.json>
 func main() {
+	if len(os.Args) == 2 && os.Args[1] == "probes" {
+		printProbes()
+		return
+	}
 	if len(os.Args) < 6 {
 		fmt.Fprintln(os.Stderr, "usage: harness <property> <quick|thorough> <seed> <driver> <report.json>")
 		os.Exit(2)
